@@ -251,7 +251,7 @@ func concFloat(v value, what string) float64 {
 
 func concInt(fr *frame, v value, what string) int64 {
 	if _, ok := v.(sym); ok {
-		panic(unsupported(what + " on symbolic integer"))
+		return fr.i.x.concretizeByModel(v, what)
 	}
 	return asInt64(v)
 }
